@@ -108,19 +108,22 @@ class RawClient:
 
 class RawServer:
     """listener-side scripted peer: accepts connections; per connection collects request bytes and
-    sends whatever the behaviour callback returns"""
+    sends whatever the behaviour callback queues.  With tls=True every accepted connection runs a real
+    OpenSSL server handshake over the fake socket first."""
 
-    def __init__(self, net, port, owner="rawserver"):
+    def __init__(self, net, port, owner="rawserver", tls=False):
         self.net = net
         self.port = port
         self.owner = owner
+        self.tls = tls
         prev = net.current_owner
         net.current_owner = owner
         self.lsock = netmod.FakeSocket(net)
         self.lsock.bind(("", port))
         self.lsock.listen()
         net.current_owner = prev
-        self.conns = []     # dicts: sock, rx, out (pending bytes), closed
+        self.conns = []     # dicts: sock, io, rx, out (pending bytes), closed
+        self.accepted = 0
 
     def step(self, behave):
         """behave(conn) may append to conn['out'], set conn['fin'] / conn['rst']"""
@@ -131,20 +134,34 @@ class RawServer:
                 break
             except OSError:
                 break
-            self.conns.append(dict(sock=s, rx=bytearray(), out=bytearray(), closed=False, fin=False, rst=False,
-                                   idx=len(self.conns), state={}))
+            self.accepted += 1
+            io = s
+            if self.tls:
+                io = tlsmod.SimSSLContext(self.net, True).wrap_socket(s, server_side=True)
+            self.conns.append(dict(sock=s, io=io, ready=not self.tls, rx=bytearray(), out=bytearray(), closed=False, fin=False,
+                                   rst=False, idx=len(self.conns), state={}, server=self))
         for c in self.conns:
             if c["closed"]:
                 continue
             s = c["sock"]
+            io = c["io"]
+            if not c["ready"]:
+                try:
+                    io.do_handshake()
+                    c["ready"] = True
+                except (ssl.SSLWantReadError, ssl.SSLWantWriteError):
+                    continue
+                except OSError:
+                    c["closed"] = True
+                    continue
             try:
                 while True:
-                    d = s.recv(65536)
+                    d = io.recv(65536)
                     if d == b"":
                         c["peer_eof"] = True
                         break
                     c["rx"].extend(d)
-            except BlockingIOError:
+            except (BlockingIOError, ssl.SSLWantReadError, ssl.SSLWantWriteError):
                 pass
             except OSError:
                 c["closed"] = True
@@ -152,9 +169,9 @@ class RawServer:
             behave(c)
             try:
                 if c["out"]:
-                    n = s.send(bytes(c["out"]))
+                    n = io.send(bytes(c["out"]))
                     del c["out"][:n]
-            except BlockingIOError:
+            except (BlockingIOError, ssl.SSLWantReadError, ssl.SSLWantWriteError):
                 pass
             except OSError:
                 c["closed"] = True
@@ -165,5 +182,5 @@ class RawServer:
                     s.state = "closed"
                     c["closed"] = True
                 elif c["fin"]:
-                    s.close()
+                    io.close()
                     c["closed"] = True
